@@ -4,7 +4,7 @@
    longer overwrites PrevHash): the block is verified and stored as submitted,
    so `chain s' = b :: chain s` says the stored header is the signed header. *)
 From Sky Require Import Base.Uint Model.Ledger Model.LedgerSpec Model.LedgerObs Model.LedgerReplay
-  Proofs.LedgerBasics Proofs.LedgerProofs Proofs.LedgerSupply Proofs.LedgerUtxo Proofs.LedgerAppend
+  Proofs.LedgerBasics Proofs.LedgerProofs Proofs.LedgerAppend
   Proofs.LedgerExample.
 Open Scope Z_scope.
 
